@@ -37,6 +37,14 @@ def battery():
                           relationships=[Relationship(name="shelves", type="one_to_many", foreign_key=["vendor_id", "sku"])],
                           dimensions=[Dimension(name="kind", type="categorical")], metrics=[Metric(name="n", agg="count"), Metric(name="total", agg="sum", sql="amount")]))
         L.add_model(Model(name="shelves", table="shelves", primary_key="id", dimensions=[Dimension(name="kind", type="categorical")], metrics=[Metric(name="n", agg="count")]))
+        # a model with several rollups, two of which tie for some queries: routing must not depend on what was compiled before, nor reorder the list
+        from sidemantic.core.pre_aggregation import PreAggregation
+        L.add_model(Model(name="events", table="events", primary_key="id",
+                          dimensions=[Dimension(name="kind", type="categorical"), Dimension(name="status", type="categorical"), Dimension(name="day", type="time", granularity="day", sql="created")],
+                          metrics=[Metric(name="n", agg="count"), Metric(name="total", agg="sum", sql="amount")],
+                          pre_aggregations=[PreAggregation(name="daily_by_status", measures=["total", "n"], dimensions=["status"], time_dimension="day", granularity="day"),
+                                            PreAggregation(name="daily_by_kind", measures=["total", "n"], dimensions=["kind"], time_dimension="day", granularity="day"),
+                                            PreAggregation(name="monthly_all", measures=["total"], dimensions=["kind", "status"], time_dimension="day", granularity="month")]))
         L.add_metric(Metric(name="cross", type="derived", sql="orders.total + customers.total + items.total"))
         L.add_metric(Metric(name="cross2", type="derived", sql="returns.n / orders.n"))
         L.add_metric(Metric(name="cross_ratio", type="ratio", numerator="items.total", denominator="orders.total"))
@@ -62,6 +70,10 @@ def battery():
         dict(metrics=["orders.total"], dimensions=["lines.kind"]),                                           # fan-out onto the composite-keyed child
         dict(metrics=["products.total", "products.n"], dimensions=["shelves.kind"], filters=["lines.kind = 'x'"]),
         dict(metrics=["lines.uniq"], dimensions=["lines.kind"]),
+        dict(metrics=["events.total"], dimensions=["events.kind"], use_preaggregations=True),
+        dict(metrics=["events.total"], dimensions=["events.day__month"], use_preaggregations=True),          # daily_by_status and daily_by_kind tie
+        dict(metrics=["events.total", "events.n"], dimensions=["events.status", "events.day__week"], use_preaggregations=True),
+        dict(metrics=["events.total"], dimensions=["events.kind", "events.status", "events.day__year"], use_preaggregations=True),
         # ONE filter string that names several models the rest of the query does not mention: their join order comes from the filter text alone
         dict(metrics=["orders.total"], dimensions=[], filters=["customers.status = 'a' AND items.kind = 'z' AND stores.kind = 'k' AND returns.status = 'r'"]),
         dict(metrics=["orders.n"], dimensions=["orders.kind"], filters=["regions.kind = 'n' AND returns.kind = 'x' AND items.status = 'o' AND customers.kind = 'c' AND stores.status = 's'"]),
